@@ -1108,7 +1108,27 @@ pub fn flatten_oracle(o: &Outcome, s: &Scen) -> Option<(String, serde_json::Valu
   let outer_done = o.evs.iter().any(|e| matches!(e.k, K::Mark("term_ret", 0)));
   let outer_items = s.threads.iter().flatten().filter(|op| matches!(op, TOp::Next(0))).count();
   let spy_subs: Vec<u32> = o.evs.iter().filter(|e| e.id >= 10_000 && matches!(e.k, K::Subscribed)).map(|e| e.id).collect();
-  let all_inner_done = spy_subs.iter().all(|id| o.evs.iter().any(|e| e.id == *id && matches!(e.k, K::N(N::Complete))));
+  // an inner is done when its spy saw the completion, or - judged from the calls, because an
+  // operator that wrongly reports `finished` makes the subject skip it, spy included - when
+  // complete() on its hot subject was called after the inner's subscription had returned, and
+  // has itself returned
+  let done_by_calls = |id: u32| -> bool {
+    let Kind::Pipe(c) = &s.kind else { return false };
+    let table = c.ops.iter().find_map(|op| match op {
+      Op::MergeAll(_, t) | Op::ConcatAll(t) => Some(t),
+      _ => None,
+    });
+    let Some(table) = table else { return false };
+    let idx = (id / 1000) as usize;
+    let Some(inner) = idx.checked_sub(20).and_then(|i| table.get(i)) else { return false };
+    let Src::Hot(k) = inner.src else { return false };
+    let Some(sub_done) = o.evs.iter().find(|e| e.id == id && matches!(e.k, K::Mark("sub_done", _))).map(|e| e.seq) else { return false };
+    let completes = s.threads.iter().flatten().any(|op| matches!(op, TOp::Complete(x) if *x == k));
+    let called = o.evs.iter().find(|e| matches!(e.k, K::Mark("term_call", v) if v == k as i64)).map(|e| e.seq);
+    let returned = o.evs.iter().any(|e| matches!(e.k, K::Mark("term_ret", v) if v == k as i64));
+    completes && returned && called.map_or(false, |c| c > sub_done)
+  };
+  let all_inner_done = spy_subs.iter().all(|id| o.evs.iter().any(|e| e.id == *id && matches!(e.k, K::N(N::Complete))) || done_by_calls(*id));
   // a queued inner may only keep waiting while `limit` inners are still open
   if let (Kind::Pipe(c), false, false) = (&s.kind, unsubbed, errored) {
     let limit = c.ops.iter().find_map(|op| match op {
